@@ -50,6 +50,9 @@ pub enum TOp {
     SortFuse(u64, u64, u64),
     SetCell(u64, u64, u32),
     SetRowCell(u64, u64, u32),
+    /// clone_from_toodee (else clone_from_slice)?, strided source?, cols, rows, cells, k: the
+    /// k-th Clone call panics (C11); runs on drop-tracked elements (kind + 30)
+    CloneFuse(bool, bool, u64, u64, Vec<u32>, u64),
 }
 
 #[derive(Clone, Debug)]
@@ -140,6 +143,7 @@ fn apply<V: TooDeeOpsMut<u32> + CopyOps<u32>>(v: &mut V, op: &TOp, base: *const 
         }
         TOp::SetCell(c, r, x) => v[(u(c), u(r))] = *x,
         TOp::SetRowCell(c, r, x) => v[u(r)][u(c)] = *x,
+        TOp::CloneFuse(..) => {}    // runs on drop-tracked elements only (emit_clone_fuse)
     }
 }
 
@@ -161,7 +165,56 @@ fn encode_op(op: &TOp, sigma: &[u64], o: &mut Vec<u64>) {
         TOp::SortFuse(v, l, k) => { o.extend([17, *v, *l, *k, FIRED.with(|x| x.get()) as u64, sigma.len() as u64]); o.extend(sigma); }
         TOp::SetCell(c, r, x) => o.extend([15, *c, *r, *x as u64]),
         TOp::SetRowCell(c, r, x) => o.extend([16, *c, *r, *x as u64]),
+        TOp::CloneFuse(td, st, sc, sr, cells, k) => { o.extend([18, *td as u64, *st as u64, *sc, *sr]); list(o, cells); o.push(*k); }
     }
+}
+
+/// clone_from_slice / clone_from_toodee over drop-tracked elements whose k-th Clone panics
+/// (kind + 30): outcome, cells, elements dropped twice, elements leaked
+pub fn emit_clone_fuse(out: &mut Out, prop: u32, case: &OCase) {
+    let (c, r) = (case.c as usize, case.r as usize);
+    let (s, e) = ((case.win.0 as usize, case.win.1 as usize), (case.win.2 as usize, case.win.3 as usize));
+    let TOp::CloneFuse(td, strided, sc, sr, cells, k) = &case.op else { return };
+    ledger_reset();
+    let mut t: TooDee<Tracked> = TooDee::from_vec(c, r, case.data.iter().map(|x| Tracked::new(*x)).collect());
+    let (scu, sru) = (*sc as usize, *sr as usize);
+    // the sources are built before the fuse is armed
+    let src_vec: Vec<Tracked> = cells.iter().map(|x| Tracked::new(*x)).collect();
+    let src_arr: Option<TooDee<Tracked>> = if *td {
+        if *strided {
+            let mut p: TooDee<Tracked> = TooDee::from_vec(scu + 2, sru + 3, (0..(scu + 2) * (sru + 3)).map(|_| Tracked::new(77)).collect());
+            for y in 0..sru { for x in 0..scu { p[(x + 1, y + 2)] = Tracked::new(cells[y * scu + x]); } }
+            Some(p)
+        } else if scu * sru == cells.len() && ((scu == 0) == (sru == 0)) {
+            Some(TooDee::from_vec(scu, sru, cells.iter().map(|x| Tracked::new(*x)).collect()))
+        } else { None }
+    } else { None };
+    fn apply_t<V: TooDeeOpsMut<Tracked> + CopyOps<Tracked>>(v: &mut V, td: bool, strided: bool, sc: usize, sr: usize, src_vec: &[Tracked], src_arr: &Option<TooDee<Tracked>>) {
+        if !td { v.clone_from_slice(src_vec) }
+        else {
+            let a = src_arr.as_ref().expect("generator builds a well-formed source");
+            if strided { let sv = a.view((1, 2), (1 + sc, 2 + sr)); v.clone_from_toodee(&sv) } else { v.clone_from_toodee(a) }
+        }
+    }
+    LEDGER.with(|l| l.borrow_mut().clone_panic_in = Some(*k));
+    let ok = catch_unwind(AssertUnwindSafe(|| match case.kind {
+        0 => apply_t(&mut t, *td, *strided, scu, sru, &src_vec, &src_arr),
+        2 => { let mut v = t.view_mut(s, e); apply_t(&mut v, *td, *strided, scu, sru, &src_vec, &src_arr) }
+        _ => { let mut v = TooDeeViewMut::new(c, r, t.data_mut()); apply_t(&mut v, *td, *strided, scu, sru, &src_vec, &src_arr) }
+    })).is_ok();
+    LEDGER.with(|l| l.borrow_mut().clone_panic_in = None);
+    drop(src_vec); drop(src_arr);
+    let mut inp = vec![DBG as u64, case.kind + 30, case.c, case.r, case.win.0, case.win.1, case.win.2, case.win.3, case.data.len() as u64];
+    inp.extend(case.data.iter().map(|x| *x as u64));
+    encode_op(&case.op, &[], &mut inp);
+    if out.want_sample() { out.sample(&format!("C{:02} drop-tracked elements {:?}", prop, case)); }
+    out.begin(prop, 6, &inp);
+    let mut obs = vec![ok as u64, t.data().len() as u64];
+    obs.extend(t.data().iter().map(|x| x.val as u64));
+    obs.push(ledger_double());
+    obs.push(ledger_live().saturating_sub(t.data().len() as u64));
+    out.end(&obs);
+    drop(t);
 }
 
 /// the same operation on an array of zero-sized elements of the same shape (kind + 10):
@@ -219,6 +272,7 @@ pub fn emit_zst(out: &mut Out, prop: u32, case: &OCase) {
             TOp::SortFuse(..) => {}
             TOp::SetCell(c, r, _) => v[(u(c), u(r))] = (),
             TOp::SetRowCell(c, r, _) => v[u(r)][u(c)] = (),
+            TOp::CloneFuse(..) => {}
         }
     }
     let ok = catch_unwind(AssertUnwindSafe(|| match case.kind {
@@ -282,6 +336,7 @@ pub fn emit_big(out: &mut Out, prop: u32, case: &OCase) {
             TOp::SortFuse(..) => {}
             TOp::SetCell(c, r, x) => v[(u(c), u(r))] = Big::mk(*x),
             TOp::SetRowCell(c, r, x) => v[u(r)][u(c)] = Big::mk(*x),
+            TOp::CloneFuse(..) => {}    // runs on drop-tracked elements only (emit_clone_fuse)
         }
     }
     let key_line = |t: &TooDee<Big>| -> Vec<u32> {
@@ -312,6 +367,8 @@ pub fn emit_big(out: &mut Out, prop: u32, case: &OCase) {
 }
 
 pub fn emit(out: &mut Out, prop: u32, case: &OCase) {
+    if case.kind >= 30 { let mut k = case.clone(); k.kind -= 30; return emit_clone_fuse(out, prop, &k); }
+    if matches!(case.op, TOp::CloneFuse(..)) { return emit_clone_fuse(out, prop, case); }
     if case.kind >= 20 { let mut k = case.clone(); k.kind -= 20; return emit_big(out, prop, &k); }
     if case.kind >= 10 { let mut k = case.clone(); k.kind -= 10; return emit_zst(out, prop, &k); }
     let (c, r) = (case.c as usize, case.r as usize);
@@ -381,7 +438,9 @@ pub fn replay(out: &mut Out, prop: u32, inp: &[u64]) {
         8 => TOp::CopyFromTooDee(false, false, a[1], a[2], lst(a, 3)), 9 => TOp::CopyFromTooDee(true, true, a[1], a[2], lst(a, 3)),
         10 => TOp::CopyWithin(a[1], a[2], a[3], a[4], a[5], a[6]), 11 => TOp::Translate(a[1], a[2]),
         12 => TOp::FlipRows, 13 => TOp::FlipCols, 14 => TOp::Sort(a[1], a[2]),
-        15 => TOp::SetCell(a[1], a[2], a[3] as u32), 17 => TOp::SortFuse(a[1], a[2], a[3]), _ => TOp::SetRowCell(a[1], a[2], a[3] as u32),
+        15 => TOp::SetCell(a[1], a[2], a[3] as u32), 17 => TOp::SortFuse(a[1], a[2], a[3]),
+        18 => { let l = lst(a, 5); let k = a[6 + l.len()]; TOp::CloneFuse(a[1] != 0, a[2] != 0, a[3], a[4], l, k) }
+        _ => TOp::SetRowCell(a[1], a[2], a[3] as u32),
     };
     emit(out, prop, &OCase { kind: inp[1], c: inp[2], r: inp[3], win: (inp[4], inp[5], inp[6], inp[7]), data, op });
 }
@@ -665,6 +724,36 @@ pub fn gen_c04(out: &mut Out, tier: &str, rng: &mut Rng) {
 
 /// C11: the comparator / key function panics at its k-th call, every sort variant that
 /// takes one, owned arrays, windows and third-party implementors
+/// C11: clone_from_slice / clone_from_toodee (dense and strided sources) on owned arrays,
+/// windows and slice-constructed views, the k-th Clone panicking for every k, plus sources of
+/// the wrong size
+pub fn gen_c11_clone(out: &mut Out, prop: u32, tier: &str) {
+    let shapes: Vec<(u64, u64)> = if tier == "quick" { vec![(1, 1), (2, 3), (3, 2), (1, 4), (4, 1), (0, 0)] } else { vec![(1, 1), (2, 3), (3, 2), (4, 4), (1, 6), (6, 1), (5, 3), (0, 0)] };
+    for (nc, nr) in shapes { for kind in [0u64, 2, 6] {
+        let rc = if kind == 0 || kind == 6 { Recv { kind, c: nc, r: nr, win: (0, 0, 0, 0), nc, nr } }
+                 else { Recv { kind, c: nc + 2, r: nr + 1, win: (1, 1, nc + 1, nr + 1), nc, nr } };
+        if kind == 2 && nc == 0 { continue; }
+        let area = nc * nr;
+        let cells: Vec<u32> = (0..area as u32).map(|i| 500 + i).collect();
+        // C11: the fuse fires (k < area); C05: it does not - the completed call drops every
+        // replaced element exactly once and leaks nothing
+        let ks: Vec<u64> = if prop == 11 { (0..area).collect() } else { vec![area, area + 1] };
+        for k in ks {
+            let mk = |op: TOp| OCase { kind: rc.kind, c: rc.c, r: rc.r, win: rc.win, data: plain(rc.c, rc.r), op };
+            emit(out, prop, &mk(TOp::CloneFuse(false, false, 0, 0, cells.clone(), k)));
+            emit(out, prop, &mk(TOp::CloneFuse(true, false, nc, nr, cells.clone(), k)));
+            if nc > 0 { emit(out, prop, &mk(TOp::CloneFuse(true, true, nc, nr, cells.clone(), k))); }
+        }
+        if prop != 11 { continue; }
+        // sources of the wrong size: rejected before the first clone
+        let mk = |op: TOp| OCase { kind: rc.kind, c: rc.c, r: rc.r, win: rc.win, data: plain(rc.c, rc.r), op };
+        let mut longer = cells.clone(); longer.push(999);
+        emit(out, 11, &mk(TOp::CloneFuse(false, false, 0, 0, longer, 0)));
+        if area > 0 { emit(out, 11, &mk(TOp::CloneFuse(false, false, 0, 0, cells[1..].to_vec(), 0))); }
+        if nc > 0 { emit(out, 11, &mk(TOp::CloneFuse(true, false, nr + 1, nc, (0..((nr + 1) * nc) as u32).collect(), 0))); }
+    } }
+}
+
 pub fn gen_c11_sort(out: &mut Out, tier: &str, rng: &mut Rng) {
     let shapes: Vec<(u64, u64)> = if tier == "quick" { vec![(1, 1), (2, 3), (3, 2), (4, 4), (1, 5), (5, 1), (40, 2), (2, 40)] } else { vec![(1, 1), (2, 3), (3, 2), (4, 4), (1, 6), (6, 1), (5, 5), (40, 2), (2, 40), (3, 70)] };
     for (nc, nr) in shapes { for kind in [0u64, 2, 3, 6] { for var in [0u64, 1, 2, 3, 6, 7, 8, 9] {
